@@ -209,6 +209,16 @@ class IterAnalysis:
             filled = LinForm.var((self.self_loc(st), (self.ix["buffered_byte_length"],)))
             ok = (st.ghost.get("eof_seen") == 1 or any(x[0] == "eof" for x in st.tag)) and st.entails_le(filled - pos)
             self.note("CLEAN_EOF", frame.body.path, "end of iteration is reported only when the source is exhausted and every buffered byte was parsed", span, ok, st, frame)
+        if path == "std::result::Result" and rv.get("variant") == "Err" and frame.body.path == ITER + "::try_recover" and frame.uid[0] == "root" \
+                and place is not None and place["local"] == 0 and not place["proj"]:
+            # try_recover gives up with UnexpectedEOF only when nothing is left to scan: source exhausted and every buffered byte passed
+            v, _ = self.eng.eval_operand(st, frame, rv["ops"][0])
+            sh = _shape(v, self.eng) if isinstance(v, Enum) else {"?"}
+            if any("UnexpectedEOF" in x or x == "?" for x in sh):
+                pos = LinForm.var((self.self_loc(st), (self.ix["internal_buffer_position"],)))
+                filled = LinForm.var((self.self_loc(st), (self.ix["buffered_byte_length"],)))
+                ok = st.entails_le(filled - pos)
+                self.note("RECOVER_EXHAUSTED", frame.body.path, "recovery reports UnexpectedEOF only when every buffered byte has been scanned (position = filled)", span, ok, st, frame)
         if path == "errors::tag_iterator::TagIteratorError" and rv["variant"] == "UnexpectedEOF":
             ok = st.ghost.get("eof_seen") == 1 or any(x[0] == "eof" for x in st.tag)
             if frame.body.name == "buffer_master":
@@ -980,6 +990,8 @@ def r_recover(ctx):
     rep.instance("error shapes at exit: %s" % sorted(errs))
     rep.oblige(not bad and bool(errs), "RECOVER-ERRSET", "src/tag_iterator.rs", "try_recover may fail with %s (only ReadError / UnexpectedEOF are allowed)" % sorted(bad))
     _extra(res, rep, "INV", "INV", 1)
+    if _extra(res, rep, "RECOVER_EXHAUSTED", "RECOVER-EXHAUSTED", 1) < 1:
+        raise AnchorLost("R-RECOVER: try_recover's end-of-input exit was not observed")
     rep.assumed.extend([A_OFF, A_64, "A-READ: R::read(buf) returns Ok(n) only with n <= buf.len()"])
     return rep
 
